@@ -120,7 +120,9 @@ impl Torrent {
 
     /// Expected extraction result: (path relative to cwd, bytes), by reference arithmetic.
     pub fn expected_files(&self) -> Vec<(PathBuf, Vec<u8>)> {
-        let dir = if self.files.len() > 1 {
+        // BEP3: a torrent in the `files` layout goes into the directory named by the torrent,
+        // however many files it lists
+        let dir = if !self.single {
             PathBuf::from(&self.name)
         } else {
             PathBuf::new()
